@@ -360,6 +360,8 @@ def main(argv):
                      {"gc": ["gc per %d %d" % (rng.range(20000, 200000), rng.below(20000)), "gc cap 60"], "image": "b"}]
             for q in cheap:
                 cases.append((pi, q))
+        # a wall-clock budget must thin the worlds evenly, not drop the programs that come last
+        vsim.Rng(seed, "c08-order").shuffle(cases)
         budget = checklib.Budget(400 if tier == "quick" else 2400)
         results = []
         B = 64
